@@ -290,6 +290,21 @@ func HotColdDiff(n *Node, s *Snap) (string, string) {
 			return "hot-coin", fmt.Sprintf("coin %d hot volume %s reserve %s, cold volume %s reserve %s", id, hc.Volume(), hc.Reserve(), c.Volume, c.Reserve)
 		}
 	}
+	if hp := cs.Commission().GetCommissions(); hp != nil {
+		cc := s.Raw.Commission
+		for _, f := range []struct {
+			name string
+			hot  *big.Int
+			cold string
+		}{{"send", hp.Send, cc.Send}, {"payload_byte", hp.PayloadByte, cc.PayloadByte}, {"delegate", hp.Delegate, cc.Delegate}, {"unbond", hp.Unbond, cc.Unbond},
+			{"buy_bancor", hp.BuyBancor, cc.BuyBancor}, {"sell_bancor", hp.SellBancor, cc.SellBancor}, {"failed_tx", hp.FailedTx, cc.FailedTx},
+			{"add_limit_order", hp.AddLimitOrder, cc.AddLimitOrder}, {"declare_candidacy", hp.DeclareCandidacy, cc.DeclareCandidacy}, {"set_candidate_on", hp.SetCandidateOn, cc.SetCandidateOn},
+			{"edit_candidate", hp.EditCandidate, cc.EditCandidate}, {"create_multisig", hp.CreateMultisig, cc.CreateMultisig}, {"lock", hp.Lock, cc.Lock}, {"redeem_check", hp.RedeemCheck, cc.RedeemCheck}} {
+			if f.hot != nil && f.cold != "" && f.hot.String() != f.cold {
+				return "hot-commission", fmt.Sprintf("price table entry %s: hot %s cold %s", f.name, f.hot, f.cold)
+			}
+		}
+	}
 	for _, p := range s.Pools {
 		r0, r1 := cs.Swap().GetSwapper(coinID(p.Coin0), coinID(p.Coin1)).Reserves()
 		if r0.String() != p.Reserve0 || r1.String() != p.Reserve1 {
